@@ -146,9 +146,83 @@ struct Built {
     log: Log,
 }
 
+// ---- the same components behind config-file kinds ("script" filter, "capture" appender)
+
+#[derive(serde::Deserialize)]
+struct ScriptFCfg {
+    app: usize,
+    pos: usize,
+    resp: String,
+}
+struct ScriptFDeser(Log);
+impl log4rs::config::Deserialize for ScriptFDeser {
+    type Trait = dyn Filter;
+    type Config = ScriptFCfg;
+    fn deserialize(&self, c: ScriptFCfg, _: &log4rs::config::Deserializers) -> anyhow::Result<Box<dyn Filter>> {
+        let resp = match c.resp.as_str() {
+            "A" => R::A,
+            "N" => R::N,
+            _ => R::Rj,
+        };
+        Ok(Box::new(ScriptF { app: c.app, pos: c.pos, resp, log: self.0.clone() }))
+    }
+}
+
+#[derive(serde::Deserialize)]
+struct CaptureCfg {
+    app: usize,
+    fail: bool,
+}
+struct CaptureDeser(Log);
+impl log4rs::config::Deserialize for CaptureDeser {
+    type Trait = dyn Append;
+    type Config = CaptureCfg;
+    fn deserialize(&self, c: CaptureCfg, _: &log4rs::config::Deserializers) -> anyhow::Result<Box<dyn Append>> {
+        Ok(Box::new(ScriptA { app: c.app, fail: c.fail, log: self.0.clone() }))
+    }
+}
+
+/// The configuration as a document loaded with `load_config_file` (filters in declaration order).
+fn build_from_document(apps: &[AppSpec], root_level: LevelFilter, on_child: &[usize]) -> Result<Built, String> {
+    let log: Log = Arc::new(Mutex::new(vec![]));
+    let mut appenders = serde_json::Map::new();
+    for (i, a) in apps.iter().enumerate() {
+        let filters: Vec<Value> = a.chain.iter().enumerate().map(|(pos, f)| match *f {
+            F::S(resp) => json!({"kind": "script", "app": i, "pos": pos, "resp": resp.ch().to_string()}),
+            F::T(l) => json!({"kind": "threshold", "level": l.to_string()}),
+        }).collect();
+        appenders.insert(format!("app{}", i), json!({"kind": "capture", "app": i, "fail": a.fail, "filters": filters}));
+    }
+    let doc = json!({
+        "appenders": appenders,
+        "root": {"level": root_level.to_string(), "appenders": (0..apps.len()).map(|i| format!("app{}", i)).collect::<Vec<_>>()},
+        "loggers": {"c": {"level": "trace", "additive": true, "appenders": on_child.iter().map(|i| format!("app{}", i)).collect::<Vec<_>>()}},
+    });
+    let sc = crate::fsutil::Scratch::new("c03doc");
+    let path = sc.join("log4rs.json");
+    std::fs::write(&path, doc.to_string()).map_err(|e| e.to_string())?;
+    let mut d = log4rs::config::Deserializers::default();
+    d.insert("script", ScriptFDeser(log.clone()));
+    d.insert("capture", CaptureDeser(log.clone()));
+    let cfg = log4rs::config::load_config_file(&path, d).map_err(|e| format!("{:#}", e))?;
+    if cfg.appenders().len() != apps.len() {
+        return Err(format!("the document declares {} appenders, the loaded configuration has {}", apps.len(), cfg.appenders().len()));
+    }
+    let hlog = log.clone();
+    let logger = log4rs::Logger::new_with_err_handler(
+        cfg,
+        Box::new(move |e: &anyhow::Error| hlog.lock().unwrap().push(Ev::Handler { text: e.to_string() })),
+    );
+    Ok(Built { logger, log })
+}
+
 /// `apps` are all attached to the root (level `root_level`); `on_child` lists
 /// those additionally attached to logger "c" (additive).
 fn build(apps: &[AppSpec], root_level: LevelFilter, on_child: &[usize]) -> Result<Built, String> {
+    // a quarter of the configurations come from a configuration file with custom component kinds
+    if (apps.len() + apps.iter().map(|a| a.chain.len()).sum::<usize>()) % 4 == 3 {
+        return build_from_document(apps, root_level, on_child);
+    }
     let log: Log = Arc::new(Mutex::new(vec![]));
     let mut b = Config::builder();
     let mut root = Root::builder();
